@@ -23,6 +23,8 @@ MC = {
     "mini33": ("mc/MC_micro.tla", "mc/MC_mini33.cfg", 8, 3000),      # 3 turns
     "mini43q": ("mc/MC_micro.tla", "mc/MC_mini43q.cfg", 6, 900),     # 4x3 + trap, 2 turns
     "mini44": ("mc/MC_micro.tla", "mc/MC_mini44.cfg", 6, 1800),      # 4x4 + trap, 2 turns
+    "setup": ("mc/MC_setup.tla", "mc/MC_setup.cfg", 4, 600),          # real complement, all count vectors (VIEW)
+    "setupfull": ("mc/MC_setup.tla", "mc/MC_setupfull.cfg", 4, 900),  # 3-file board, all orders, no VIEW
     "sym33": ("mc/MC_sym.tla", "mc/MC_sym33.cfg", 4, 600),          # spec commutes with the symmetries, 3x3
     "sym44": ("mc/MC_sym.tla", "mc/MC_sym44.cfg", 4, 600),          # 4x4 with four traps, one turn
     "hash33": ("mc/MC_hash.tla", "mc/MC_hash33.cfg", 4, 600),        # feature-set hash carried along, 3x3
@@ -34,10 +36,12 @@ MC_PLAN = {
     "quick": {
         "default": ["micro22", "mini33q"],
         "C08": ["hash33", "hashsetup"],
+        "C09": ["setup", "setupfull"],
     },
     "thorough": {
         "default": ["micro22", "mini33", "mini43q", "mini44"],
         "C08": ["hash33", "hashsetup", "mini33q"],
+        "C09": ["setup", "setupfull", "hashsetup"],
         "C05": ["micro22", "micro32", "mini33"], "C06": ["micro22", "micro32", "mini33"], "C07": ["micro22", "micro32", "mini33"],
     },
 }
@@ -216,21 +220,58 @@ def gen_stage(pid, tier, seed, workdir, bindir, prop=None):
     return results, paths, mcs, stats
 
 
+def turns_stage(tier, seed, workdir, bindir):
+    """C01's oracle cross-check: constructive RuleMoves/NextPP vs the declarative labelled-turn definition
+    (ArimaaTurns.tla) on fixed 3x3 roots and on seeded sparse 8x8 pattern roots."""
+    import vcheck
+    from vcheck import sh
+    out = []
+    r = tlc_mc("mc/MC_turns.tla", "mc/MC_turns33.cfg", workers=4, timeout=900, name="turns33",
+               env={"ROOTS": os.path.join(vcheck.SPEC, "mc", "roots_turns33.ndjson")})
+    out.append(expect_mc_ok(r))
+    kind, n = ("sparse5", 8) if tier == "quick" else ("sparse", 60)
+    roots = os.path.join(workdir, "roots_turns88.ndjson")
+    rc, o = sh([os.path.join(bindir, "genroots"), kind, str(seed), str(n), roots], 300, env={"VERIF_REPO": vcheck.REPO})
+    if rc != 0:
+        raise ToolError("genroots %s failed: %s" % (kind, o[-500:]))
+    r = tlc_mc("mc/MC_turns.tla", "mc/MC_turns88.cfg", workers=6 if tier == "quick" else 12, timeout=3000, name="turns88",
+               env={"ROOTS": roots}, xmx="12g")
+    expect_mc_ok(r)
+    import re as _re
+    turns = [int(x) for x in _re.findall(r'"TURNS \d+ (\d+)"', r["out"])]
+    r["complete_turns_compared"] = sum(turns)
+    r["roots"] = len(turns)
+    out.append(r)
+    return out
+
+
 def trace_property(pid, tier, seed, workdir):
     bindir = build_harness("release")
-    mcs = []
-    with cf.ThreadPoolExecutor(max_workers=2) as ex:
-        futs = [ex.submit(tlc_mc, *MC[name][:2], workers=MC[name][2], timeout=MC[name][3], name=name)
-                for name in mc_for(pid, tier)]
-        shards = SHARDS.get(pid, shards_general)(tier)
-        results, paths = run_shards(pid, bindir, shards, seed, tier, workdir)
-        for f in futs:
-            mcs.append(expect_mc_ok(f.result()))
-    gres, gpaths, gmcs, gstats = gen_stage(pid, tier, seed, workdir, bindir)
+
+    def stage_t():
+        mcs_ = []
+        with cf.ThreadPoolExecutor(max_workers=2) as ex:
+            futs = [ex.submit(tlc_mc, *MC[name][:2], workers=MC[name][2], timeout=MC[name][3], name=name)
+                    for name in mc_for(pid, tier)]
+            shards_ = SHARDS.get(pid, shards_general)(tier)
+            results_, paths_ = run_shards(pid, bindir, shards_, seed, tier, workdir)
+            for f in futs:
+                mcs_.append(expect_mc_ok(f.result()))
+        return mcs_, shards_, results_, paths_
+
+    # the three engines run side by side: impl->spec traces (+ spec-level models), spec->impl replay,
+    # oracle cross-check
+    with cf.ThreadPoolExecutor(max_workers=3) as ex:
+        ft = ex.submit(stage_t)
+        fg = ex.submit(gen_stage, pid, tier, seed, workdir, bindir)
+        fo = ex.submit(turns_stage, tier, seed, workdir, bindir) if pid in ("C01", "C12") else None
+        mcs, shards, results, paths = ft.result()
+        gres, gpaths, gmcs, gstats = fg.result()
+        turns = fo.result() if fo else []
     results_t, paths_t = results, paths
     results = results + gres
     paths = paths + gpaths
-    mcs = mcs + gmcs
+    mcs = mcs + gmcs + turns
     pred, rule = NONTRIVIAL[pid]
     dn, total = distinct_nontrivial(paths, pred)
     games = count_games(paths)
@@ -247,6 +288,8 @@ def trace_property(pid, tier, seed, workdir):
                          "depth": m["depth"], "seconds": m["seconds"]} for m in mcs],
         "trace_shards": [{"driver": s[0], "events": r["lines"], "seconds": r["seconds"]} for s, r in zip(shards, results_t)],
         "spec_to_impl": dict(gstats, events=sum(r["lines"] for r in gres), shards=len(gpaths)),
+        "oracle_cross_check": [{"model": t["name"], "roots": t.get("roots"), "complete_turns_compared": t.get("complete_turns_compared")}
+                               for t in turns if t.get("roots")],
         "category_counts": sum_counts(results),
         "exhaustive": False,
     }
